@@ -53,7 +53,10 @@ def elem_kind(ds):
 
 def _s(x):
     if isinstance(x, bytes):
-        return x.decode('utf8')
+        try:
+            return x.decode('utf8')
+        except UnicodeDecodeError:
+            return x.decode('utf8', 'replace')      # text cut inside a character: reported by the caller comparing with the table
     return str(x)
 
 
